@@ -13,12 +13,13 @@ import FluentProofs.SerializerJunkTransfer
 
 Model: `FluentModel/Serializer.lean` (`Serializer` + `TextWriter`, function for function) and
 `FluentModel/Parser.lean`.  The two full statements are the `def`s `C04_roundtrip_statement` and
-`C04_fixpoint_statement` below.  **Proved: both statements for EVERY `String` in which each `\r` is followed by
-`\n` (LF and CRLF sources), for both values of `with_junk`, without any hypothesis on the tree**
-(`C04_roundtrip_noLoneCR`; `C04_roundtrip_junk` is the case `with_junk = true` with Junk in the tree;
-`C04_roundtrip_crfree_nojunk`, `C04_roundtrip_crfree_junkfree` for `\r`-free sources, where the tree itself — not only
-its `normSafe` form — is in the class).  Open, kept visible as a `def`: `C04_roundtrip_cr_open` (sources with a lone
-`\r`); `C04_roundtrip_of_open` / `C04_fixpoint_of_open` show that this is all that is left.  In detail, for all trees / all inputs
+`C04_fixpoint_statement` below.  **Both are proved, for EVERY `String` and both values of `with_junk`, without any
+hypothesis on the tree or on the bytes: `C04_roundtrip_full`, `C04_fixpoint_full`** (`C04_roundtrip_all` gives the four
+conjuncts at once).  Milestones kept as theorems of their own: `C04_roundtrip_crfree_nojunk`,
+`C04_roundtrip_crfree_junkfree` (`\r`-free sources, where the tree itself — not only its `normSafe` form — is in the
+class), `C04_roundtrip_noLoneCR` (every `\r` followed by `\n`), `C04_roundtrip_junk` / `C04_roundtrip_withJunk` (Junk
+kept by the serializer), `C04_roundtrip_all_nojunk` and `C04_roundtrip_cr` (sources with a lone `\r`, the last case to
+be closed: the former open `def` `C04_roundtrip_cr_open` is now a theorem).  In detail, for all trees / all inputs
 (structural induction over the mutual AST types, partial-correctness induction along the parser functions):
 
 * T1a `serialize_total` — the serializer never panics (`dedent` never underflows), any tree shape;
@@ -40,8 +41,8 @@ its `normSafe` form — is in the class).  Open, kept visible as a `def`: `C04_r
 * T3 `roundtrip_class_partial`, `roundtrip_class_sources` — **both full statements for every source
   whose parse tree is `RoundTrippable`** (decidable): messages and terms with optional values,
   attributes, attached comments; free comments of the three levels; Junk when serialising without junk.
-  A census (`#guard`, tests) shows 34 of the 36 fixture files inside the class for `with_junk = false`
-  (the other two, `cr.ftl` and `crlf.ftl`, contain `\r`; `crlf.ftl` is covered through `normSafe`);
+  A census (`#guard`, tests) shows 35 of the 36 fixture files inside the class for `with_junk = false`
+  (the other one, `crlf.ftl`, is covered through `normSafe`: `"x"`, `"\n"` joined to `"x\n"`);
 * **the other half, "every tree the parser produces is in the class"**: `parse_pattern_shape` (the element
   list `get_pattern` returns after dedent and trim is an `mlPattern`, any `\r`-free source, any fuel, any
   start), `parse_pattern_shape_crlf` (the same after joining `"x"`, `"\n"` for CRLF sources),
@@ -65,23 +66,40 @@ its `normSafe` form — is in the class).  Open, kept visible as a `def`: `C04_r
   entries (`SerializerJunkTransfer.lean`: `jgood_of_srcGood`), and the entry loop on such a text
   (`SerializerJunkText.lean`: `parseLoop_textJ`, `roundtrip_junk_tree`).
 
-Still open (`C04_roundtrip_cr_open`): a lone `\r` (it stays inside text / comment lines, which the class excludes, and
-is doubled by the `TextWriter`).  No source is known on which the model violates the statement (exhaustive
-enumeration of short sources over small alphabets and ~100 000 random structured sources, both options, with and
-without `\r`).  `C04_fixpoint_statement` needs nothing else than `C04_roundtrip_statement` (`fixpoint_of_roundtrip`).
+* **Sources with a lone `\r`** (a byte 13 not followed by 10; the parser treats it as an ordinary byte of a text or a
+  comment line, `trim` strips it from the end of a pattern, the `TextWriter` doubles it in front of a `\n` — the fix for
+  defect F24): `C04_roundtrip_cr`.  The class admits the byte 13 in text elements and comment lines under the
+  conditions the writer needs: a text does not end with `\r\n`; a text that ends with `\r` is followed by a placeable
+  or by the text `"\n"` (the shape the parser returns for `…\r\r\n`: the slice is cut in front of the LAST `\r`, the
+  `\n` is pushed as an element of its own; the serialised text — `Ser.elemsText` with `Ser.crPad` — holds the doubled
+  `\r` and is read back as the same two elements); the last text does not end with `\r`; a comment line may contain and
+  end with `\r` (`Ser.commentText` with `Ser.crDbl`); a `\r` may start a continuation line, a text behind a placeable,
+  a pattern, a Junk (`Ser.Stopper`, `Ser.nonBlankStart`, `Ser.stopperText` ask that a `\r` is not followed by `\n`).
+  Class round trip: `Ser.mlLoop` (the `get_pattern` loop on the serialised text, with the "pending line feed" state
+  behind a `.crlf` slice), `Ser.serElements_ml_g` (the writer behind a text that ends with `\r`),
+  `Ser.getCommentGo_text`.  Parser output in the class for EVERY source: `parse_pattern_shape_all`
+  (`Ser.getPattern_mlPattern_joinAll`), `Ser.parse_comments_all`, `parse_output_normSafe_roundTrippable_all`; Junk for
+  every source: `Ser.roundtrip_junk_source_all`.  Before proving, the statement was searched for counterexamples by
+  evaluation of the model: all sources of length ≤ 8 over the alphabet `a`, space, `=`, LF, CR, `{`, `}`, `.`, `#`, `-`,
+  `"` that contain a lone `\r`, all `a=`+w with |w| ≤ 8 over a pattern alphabet, comment / multi-line / select
+  templates with 7 free bytes — both options, no violation.
+
+`C04_fixpoint_statement` needs nothing else than `C04_roundtrip_statement` (`fixpoint_of_roundtrip`).
 -/
 namespace FluentProofs.C04
 open FluentModel FluentModel.Syntax FluentModel.Syntax.Ser FluentProofs.Parser FluentProofs.Ser
 
-/-! ## the full statements (kept visible; proved except for sources with a lone `\r`, see the end of the file) -/
+/-! ## the full statements (kept visible as `def`s; proved at the end of the file: `C04_roundtrip_full`,
+`C04_fixpoint_full`) -/
 
-/-- **C04 round trip (full statement; open only for sources with a lone `\r`).**
+/-- **C04 round trip (full statement; theorem `C04_roundtrip_full`).**
 For every source string and both options: if the parser gives the tree `t`, then serialising `t` succeeds with some text `out`, parsing `out`
 succeeds with a tree `t'`, and `t'` equals `t` under `norm` (adjacent text elements joined
 recursively, whitespace-only comment lines equal to empty ones, Junk dropped when `¬withJunk`).
 
-Proved for every string without a lone `\r`, both options, no hypothesis on the tree — `C04_roundtrip_noLoneCR`
-(Junk kept by the serializer: `C04_roundtrip_junk`).  The rest is `C04_roundtrip_cr_open` (`C04_roundtrip_of_open`). -/
+Proved for every string, both options, no hypothesis on the tree: `C04_roundtrip_full` (cases: `C04_roundtrip_noLoneCR`
+for strings without a lone `\r`, `C04_roundtrip_cr` for the others; Junk kept by the serializer: `C04_roundtrip_withJunk`,
+`C04_roundtrip_withJunk_all`). -/
 def C04_roundtrip_statement : Prop :=
   ∀ (str : String) (withJunk : Bool) (t : Resource Span) (errs : List PErr),
     parse str.toUTF8.data = .done (t, errs) →
@@ -89,11 +107,11 @@ def C04_roundtrip_statement : Prop :=
       ∃ t' errs', parse out.toArray = .done (t', errs') ∧
         norm withJunk (resolve out.toArray t') = norm withJunk (resolve str.toUTF8.data t)
 
-/-- **C04 fixed point (full statement, open).**  Serialising the re-parsed tree reproduces the text
-byte for byte.
+/-- **C04 fixed point (full statement; theorem `C04_fixpoint_full`).**  Serialising the re-parsed tree reproduces the
+text byte for byte.
 
-`fixpoint_of_roundtrip` proves that it follows from `C04_roundtrip_statement`; proved together with it for
-every string without a lone `\r` (`C04_roundtrip_noLoneCR`, last conjunct). -/
+`fixpoint_of_roundtrip` proves that it follows from `C04_roundtrip_statement`; it is also the last conjunct of
+`C04_roundtrip_all`. -/
 def C04_fixpoint_statement : Prop :=
   ∀ (str : String) (withJunk : Bool) (t : Resource Span) (errs : List PErr),
     parse str.toUTF8.data = .done (t, errs) →
@@ -351,7 +369,7 @@ pattern element: `serialize_element` appends (after the indentation, at a line s
 — `{ i }`, `{{ e }}` or `{ sel ->` … `}` — and `get_placeable`, started behind the opening brace, reads it
 back to exactly `x`. -/
 theorem placeable_roundtrip_level (x : Expr Bytes) (h : rtExpr x = true) (L : Nat) :
-    (∀ (w : Writer) (nl : Bool), WS w L nl →
+    (∀ (w : Writer) (nl : Bool), WSc w L nl →
       ∃ w', serElement w (.placeable x) = some w' ∧
         w'.buffer = w.buffer ++ ((if nl then spacesL (4 * L) else []) ++ exprText L x).toArray ∧ WS w' L false) ∧
     (∀ (s : Src) (p n : Nat), AsciiThenBoundary s → At s p (exprText L x) → 4 * (exprText L x).length + 11 ≤ n →
@@ -516,9 +534,10 @@ example : LineSplit [.message ⟨[97], some [.text [120, 10], .text [121]], [], 
 
 `inClass src withJunk` = the parse tree of `src` is `RoundTrippable withJunk`, i.e. `roundtrip_class_sources`
 applies to it.  Evaluated by `#guard` on all 36 files of `fluent-syntax/tests/fixtures/*.ftl` (and by
-`decide +kernel` on the small ones).  Result: with `with_junk = false` 34 of 36 fixtures are inside the
-class (all but `cr.ftl` and `crlf.ftl`, which contain `\r`); with `with_junk = true` the 11 fixtures
-without Junk are inside. -/
+`decide +kernel` on the small ones).  Result: with `with_junk = false` 35 of 36 fixtures are inside the
+class (all but `crlf.ftl`, whose tree has `"x"`, `"\n"` where the class asks for `"x\n"`: its `normSafe` form is inside;
+`cr.ftl` — one comment line with lone `\r`s — is inside since the class admits the byte 13); with `with_junk = true`
+the 11 fixtures without Junk are inside. -/
 
 /-- test helper: the parse tree of `src` is in the class -/
 def inClass (src : Src) (withJunk : Bool) : Bool :=
@@ -770,7 +789,8 @@ def fixture_comments : Src :=
     101, 114, 114, 111, 114, 10]
 #guard inClass fixture_comments true == false && inClass fixture_comments false == true
 
-/-- census: `cr.ftl` — with_junk=true: false, with_junk=false: false -/
+/-- census: `cr.ftl` — with_junk=true: true, with_junk=false: true (one resource comment whose single line contains
+lone `\r`s; in the class since the class admits the byte 13 in comment lines and text elements) -/
 def fixture_cr : Src :=
     #[35, 35, 35, 32, 84, 104, 105, 115, 32, 101, 110, 116, 105, 114, 101, 32, 102, 105, 108, 101, 32, 117, 115,
     101, 115, 32, 67, 82, 32, 97, 115, 32, 69, 79, 76, 46, 13, 13, 101, 114, 114, 48, 49, 32, 61, 32, 86, 97, 108,
@@ -779,8 +799,8 @@ def fixture_cr : Src :=
     111, 110, 116, 105, 110, 117, 101, 100, 13, 13, 32, 32, 32, 32, 46, 116, 105, 116, 108, 101, 32, 61, 32, 84,
     105, 116, 108, 101, 13, 13, 101, 114, 114, 48, 52, 32, 61, 32, 123, 32, 34, 115, 116, 114, 13, 13, 101, 114,
     114, 48, 53, 32, 61, 32, 123, 32, 36, 115, 101, 108, 32, 45, 62, 32, 125, 13]
-#guard inClass fixture_cr true == false && inClass fixture_cr false == false
-example : (inClass fixture_cr true == false && inClass fixture_cr false == false) = true := by decide +kernel
+#guard inClass fixture_cr true == true && inClass fixture_cr false == true
+example : (inClass fixture_cr true == true && inClass fixture_cr false == true) = true := by decide +kernel
 
 /-- census: `crlf.ftl` — with_junk=true: false, with_junk=false: false -/
 def fixture_crlf : Src :=
@@ -1444,8 +1464,8 @@ Hence both full statements hold for all such sources when serialising without Ju
 `with_junk = true` when the tree contains no Junk (`C04_roundtrip_crfree_nojunk`,
 `C04_roundtrip_crfree_junkfree`, `C04_roundtrip_noLoneCR_nojunk`).  Junk re-emitted verbatim with `with_junk = true`
 is the theorem `C04_roundtrip_junk` (two-source simulation of the parser); with it `C04_roundtrip_noLoneCR` has no
-hypothesis on the tree.  What is left of the full statement is kept visible as the `def` `C04_roundtrip_cr_open`
-(sources with a lone `\r`); `C04_roundtrip_of_open` shows that it is all that is left. -/
+hypothesis on the tree.  Sources with a lone `\r` (`def` `C04_roundtrip_cr_open`, the last case: `C04_roundtrip_of_open`)
+are the theorem `C04_roundtrip_cr`; `C04_roundtrip_full`, `C04_fixpoint_full` are the two full statements. -/
 
 /-- the string contains no carriage return (byte 13) -/
 def CRFree (str : String) : Prop := ∀ j : Nat, str.toUTF8.data[j]? ≠ some (13 : UInt8)
@@ -1548,9 +1568,9 @@ theorem C04_roundtrip_noLoneCR_nojunk (str : String) (hcr : NoLoneCRStr str) (wi
   obtain ⟨t', h3, h4, h5⟩ := h2 (serialize_atb_of_parse str t errs hp withJunk out h1)
   exact ⟨out, h1, t', [], h3, by rw [h4, Ser.norm_normSafe], h5⟩
 
-/-- **open part of `C04_roundtrip_statement`: sources that contain a lone `\r`** (a `\r` not followed by
-`\n`).  It stays inside text and comment lines (the class excludes the byte 13 there) and is doubled by the
-`TextWriter` in front of `\n`.  On every tested source the model satisfies the statement; it is not proved. -/
+/-- **the last part of `C04_roundtrip_statement` to be proved: sources that contain a lone `\r`** (a `\r` not followed
+by `\n`).  It stays inside text and comment lines and is doubled by the `TextWriter` in front of `\n`.  Formerly open;
+now the theorem `C04_roundtrip_cr` (the name of the `def` is kept). -/
 def C04_roundtrip_cr_open : Prop :=
   ∀ (str : String) (withJunk : Bool) (t : Resource Span) (errs : List PErr), ¬ NoLoneCRStr str →
     parse str.toUTF8.data = .done (t, errs) →
@@ -1605,8 +1625,99 @@ theorem C04_roundtrip_noLoneCR (str : String) (hcr : NoLoneCRStr str) (withJunk 
   | true => exact C04_roundtrip_withJunk str hcr t errs hp
   | false => exact C04_roundtrip_noLoneCR_nojunk str hcr false t errs hp (fun h => by cases h)
 
-/-- **the open part is all that is left**: `C04_roundtrip_statement` (hence, by `fixpoint_of_roundtrip`,
-`C04_fixpoint_statement`) follows from `C04_roundtrip_cr_open`. -/
+/-! ### sources with a lone `\r`
+
+The class admits the byte 13 inside text elements and comment lines: a text may end with `\r` in front of the text
+`"\n"` (the parser cuts a text in front of the LAST `\r` of `…\r\r\n` and pushes the `\n` as an element of its own; the
+`TextWriter` doubles the `\r` — `Ser.crPad` — so that the text is read back as it was), a comment line may end with
+`\r` (`newline` doubles it — `Ser.crDbl`), a `\r` may start a continuation line or a text behind a placeable.  The
+pattern-shape theorem holds for every source (`Ser.getPattern_mlPattern_joinAll`), so does the comment shape
+(`Ser.parse_comments_all`). -/
+
+/-- **PATTERN SHAPE for every source** (lone `\r` included): with every text that may be joined to the text behind it
+joined (`Ser.joinTop`; a text ending in `\r` is not joined to `"\n"`), the pattern `get_pattern` returns is in the class
+`mlPattern` -/
+theorem parse_pattern_shape_all (s : Src) (n p : Nat) (els : List (PatElem Span)) (q : Nat)
+    (h : getPattern s n p = .ok (some els) q) : mlPattern (Ser.joinTop (mapPat (spanBytes s) els)) = true :=
+  Ser.getPattern_mlPattern_joinAll s n p els q h
+
+/-- the `normSafe` form of the parse tree of EVERY source is in the class (Junk aside) -/
+theorem parse_output_normSafe_roundTrippable_all (s : Src) (t : Resource Span) (errs : List PErr)
+    (h : parse s = .done (t, errs)) (withJunk : Bool) (hj : withJunk = true → ∀ e ∈ t, ∀ c, e ≠ .junk c) :
+    RoundTrippable withJunk (normSafe withJunk (resolve s t)) = true :=
+  Ser.roundTrippable_normSafe_of_parse_all s t errs h withJunk hj
+
+/-- **both full statements for EVERY string — lone `\r` included — when no Junk has to be written**: for
+`with_junk = false` without any hypothesis, for `with_junk = true` when the tree has no Junk. -/
+theorem C04_roundtrip_all_nojunk (str : String) (withJunk : Bool) (t : Resource Span)
+    (errs : List PErr) (hp : parse str.toUTF8.data = .done (t, errs))
+    (hj : withJunk = true → ∀ e ∈ t, ∀ c, e ≠ .junk c) :
+    ∃ out, Ser.serialize withJunk (resolve str.toUTF8.data t) = some out ∧
+      ∃ t' errs', parse out.toArray = .done (t', errs') ∧
+        norm withJunk (resolve out.toArray t') = norm withJunk (resolve str.toUTF8.data t) ∧
+        Ser.serialize withJunk (resolve out.toArray t') = some out := by
+  have hrt := parse_output_normSafe_roundTrippable_all _ t errs hp withJunk hj
+  obtain ⟨out, h1, h2⟩ := roundtrip_rt withJunk _ hrt
+  rw [Ser.serialize_normSafe] at h1
+  obtain ⟨t', h3, h4, h5⟩ := h2 (serialize_atb_of_parse str t errs hp withJunk out h1)
+  exact ⟨out, h1, t', [], h3, by rw [h4, Ser.norm_normSafe], h5⟩
+
+/-- the Junk part of `C04_roundtrip_cr_open`: a source with a lone `\r` whose tree contains Junk, serialised with
+`with_junk = true` (theorem `C04_roundtrip_cr_junk`) -/
+def C04_roundtrip_cr_junk_open : Prop :=
+  ∀ (str : String) (t : Resource Span) (errs : List PErr), ¬ NoLoneCRStr str → (∃ e ∈ t, ∃ c, e = .junk c) →
+    parse str.toUTF8.data = .done (t, errs) →
+    ∃ out, Ser.serialize true (resolve str.toUTF8.data t) = some out ∧
+      ∃ t' errs', parse out.toArray = .done (t', errs') ∧
+        norm true (resolve out.toArray t') = norm true (resolve str.toUTF8.data t)
+
+/-- `C04_roundtrip_cr_open` follows from its Junk part -/
+theorem C04_roundtrip_cr_of_junk (h : C04_roundtrip_cr_junk_open) : C04_roundtrip_cr_open := by
+  intro str withJunk t errs hc hp
+  by_cases hj : withJunk = true ∧ ∃ e ∈ t, ∃ c, e = .junk c
+  · obtain ⟨rfl, hj⟩ := hj
+    exact h str t errs hc hj hp
+  · obtain ⟨out, h1, t', errs', h2, h3, _⟩ := C04_roundtrip_all_nojunk str withJunk t errs hp (by
+      intro hw e he c hc'
+      exact hj ⟨hw, e, he, c, hc'⟩)
+    exact ⟨out, h1, t', errs', h2, h3⟩
+
+/-- **both full statements with `with_junk = true`, for EVERY string — lone `\r` included — whatever Junk the tree
+contains** (`Ser.roundtrip_junk_source_all`: the Junk chain of `C04_roundtrip_withJunk` without its hypothesis on `\r`;
+a Junk may now start with a lone `\r` in column 0 or behind blanks and may end with one at the end of input) -/
+theorem C04_roundtrip_withJunk_all (str : String) (t : Resource Span) (errs : List PErr)
+    (hp : parse str.toUTF8.data = .done (t, errs)) :
+    ∃ out, Ser.serialize true (resolve str.toUTF8.data t) = some out ∧
+      ∃ t' errs', parse out.toArray = .done (t', errs') ∧
+        norm true (resolve out.toArray t') = norm true (resolve str.toUTF8.data t) ∧
+        Ser.serialize true (resolve out.toArray t') = some out :=
+  Ser.roundtrip_junk_source_all str t errs hp
+
+/-- **`C04_roundtrip_cr_junk_open` is a theorem** -/
+theorem C04_roundtrip_cr_junk : C04_roundtrip_cr_junk_open := by
+  intro str t errs _ _ hp
+  obtain ⟨out, h1, t', errs', h2, h3, _⟩ := C04_roundtrip_withJunk_all str t errs hp
+  exact ⟨out, h1, t', errs', h2, h3⟩
+
+/-- **`C04_roundtrip_cr_open` is a theorem**: the round-trip sentence for every source that contains a lone `\r`,
+both options -/
+theorem C04_roundtrip_cr : C04_roundtrip_cr_open := C04_roundtrip_cr_of_junk C04_roundtrip_cr_junk
+
+/-- **both full statements for EVERY string, both values of `with_junk`, no hypothesis at all**: serialising the parse
+tree succeeds, the output parses, the re-parsed tree equals the original one under `norm`, and serialising it again
+reproduces the output byte for byte -/
+theorem C04_roundtrip_all (str : String) (withJunk : Bool) (t : Resource Span) (errs : List PErr)
+    (hp : parse str.toUTF8.data = .done (t, errs)) :
+    ∃ out, Ser.serialize withJunk (resolve str.toUTF8.data t) = some out ∧
+      ∃ t' errs', parse out.toArray = .done (t', errs') ∧
+        norm withJunk (resolve out.toArray t') = norm withJunk (resolve str.toUTF8.data t) ∧
+        Ser.serialize withJunk (resolve out.toArray t') = some out := by
+  cases withJunk with
+  | true => exact C04_roundtrip_withJunk_all str t errs hp
+  | false => exact C04_roundtrip_all_nojunk str false t errs hp (fun h => by cases h)
+
+/-- `C04_roundtrip_statement` follows from `C04_roundtrip_cr_open` (kept: the reduction that showed that the lone-`\r`
+case was all that was left) -/
 theorem C04_roundtrip_of_open (hcr : C04_roundtrip_cr_open) : C04_roundtrip_statement := by
   intro str withJunk t errs hp
   by_cases hc : NoLoneCRStr str
@@ -1617,6 +1728,12 @@ theorem C04_roundtrip_of_open (hcr : C04_roundtrip_cr_open) : C04_roundtrip_stat
 /-- the same for the fixed point -/
 theorem C04_fixpoint_of_open (hcr : C04_roundtrip_cr_open) : C04_fixpoint_statement :=
   fixpoint_of_roundtrip (C04_roundtrip_of_open hcr)
+
+/-- **C04 round trip — the full statement is a theorem.** -/
+theorem C04_roundtrip_full : C04_roundtrip_statement := C04_roundtrip_of_open C04_roundtrip_cr
+
+/-- **C04 fixed point — the full statement is a theorem.** -/
+theorem C04_fixpoint_full : C04_fixpoint_statement := C04_fixpoint_of_open C04_roundtrip_cr
 
 /-- test: Junk kept by the serializer, the broken entry looks into the head of the next one whose blanks are
 normalised (`"a = {\nb   =  x\n"`), Junk followed by a comment, by Junk, at the end of input without line end, behind a
@@ -1638,5 +1755,30 @@ example : (inClass "a =\r\n  x \r\n\r\n   { $y }\r\n y\r\n".toUTF8.data false ==
      | .done (t, _) => RoundTrippable false (normSafe false (resolve "a =\r\n  x \r\n\r\n   { $y }\r\n y\r\n".toUTF8.data t))
      | _ => false) &&
     roundtripHolds "a =\r\n  x \r\n\r\n   { $y }\r\n y\r\n".toUTF8.data false) = true := by decide +kernel
+
+/-- test: sources with a lone `\r` (no Junk written): a text that ends with `\r` in front of `\r\n`, a line made of
+`\r` and blanks inside a pattern, comment lines that contain / end with `\r` or consist of blanks and `\r`, a `\r` at the
+start of a pattern and of a continuation line, a stray `\r`-only line at the end of a pattern (F29), `\r` around a
+placeable in an attribute -/
+example : (roundtripHolds "a = x\r\r\n y\n".toUTF8.data false &&
+    roundtripHolds "a =\n  x\r\n  \r \n  y".toUTF8.data true &&
+    roundtripHolds "# c\r\r\n# \r\nb = \rfoo\n".toUTF8.data true &&
+    roundtripHolds "a = {$x}\r\r\n z".toUTF8.data false &&
+    roundtripHolds "a =\n    \rfoo\n  bar\r".toUTF8.data true &&
+    roundtripHolds "a = x\n .b = y\r{ 1 }\r\r\n\r\n  z\n".toUTF8.data true) = true := by decide +kernel
+
+/-- test: Junk with a lone `\r`, kept by the serializer: a Junk that starts with `\r` in column 0 behind a message, a
+Junk that ends with `\r` at the end of input, a source that is a single `\r`, a `\r`-led line inside a broken entry -/
+example : (roundtripHolds "a = b\n\rfoo\n".toUTF8.data true &&
+    roundtripHolds "a = {\r".toUTF8.data true &&
+    roundtripHolds "\r".toUTF8.data true &&
+    roundtripHolds "a = {\n \r\nb = c".toUTF8.data true) = true := by decide +kernel
+
+/-- test: the tree of a source with lone `\r` only (`"x\r"`, `"\n"`, `" y"` stay three elements) is in the class as it is;
+with CRLF line ends as well its `normSafe` form is (comment line `c\r` included) -/
+example : (inClass "a = x\r\r\n y\n".toUTF8.data false == true && inClass "a = x\r\n y\r\r\n z".toUTF8.data false == false &&
+    (match parse "a = x\r\n y\r\r\n z\n# c\r\r\n".toUTF8.data with
+     | .done (t, _) => RoundTrippable false (normSafe false (resolve "a = x\r\n y\r\r\n z\n# c\r\r\n".toUTF8.data t))
+     | _ => false)) = true := by decide +kernel
 
 end FluentProofs.C04
